@@ -41,6 +41,8 @@ def model(run, thorough):
     for name, c in cfgs:
         r = vlib.tlc_ok(vlib.run_tlc("WorkflowFast", c, timeout=3000), "WorkflowFast " + name)
         run.add_tlc(r, name)
+    vlib.coverage_audit(run, "WorkflowFast", [fcfg(2, 3, 2), fcfg(2, 3, 2, F=3)],
+                        ["MainAdd", "MainOffer", "MainSentAll", "MainWait", "MainDecide", "Recv", "Exit", "Lock", "ReadOK", "ReadFail", "Unlock", "Round", "Done", "ErrDone"])
     # vacuity guard: the defects of the pinned commit must be visible to these invariants
     for name, c, want in [("as-is single Read", fcfg(2, 3, 2, rf="FALSE", lk="FALSE", de="FALSE", se="FALSE"), "FreshOnly"),
                           ("ReadFull without lock", fcfg(2, 3, 2, lk="FALSE"), "FreshOnly")]:
